@@ -222,7 +222,7 @@ async fn fork_history(hrng: &mut Rng, gp: u64, case: usize, summary: &mut Summar
         if ok {
             let ts2 = b.tip().timestamp + 2 * HEARTBEAT + 900;
             let txb2 = branch(&b, hrng, false, ts2);
-            let gt2 = if txb2.is_empty() { let p = b.tip().clone(); Some(gt_tx_for(&b.node, &p, b.keys[2].0, 903).await) } else { None };
+            let gt2 = if want_gt(&b, hrng, txb2.is_empty()) { let p = b.tip().clone(); Some(gt_tx_for(&b.node, &p, b.keys[2].0, 903).await) } else { None };
             let (_c, srb2) = b.honest_step(ts2, gt2, &txb2).await;
             ok = srb2.add == Some(AddClass::OnChain);
         }
@@ -416,6 +416,86 @@ async fn scripted(name: &str, case: usize, summary: &mut Summary) -> (Sim, Strin
                 c02_oracle(&mut sim, &sr, case, summary, &desc, Some("collected-output-stays-spendable"));
             }
         }
+        // every consensus field of the header, one at a time, off by one in an otherwise honest block:
+        // each must be rejected (one invalid child per tip, then the honest block extends the chain)
+        "header-tampered" => {
+            let iss: &[(usize, u64)] = &[(0, 3_000_000), (0, 500_000), (1, 700), (1, 90_000), (2, 5), (1, 333_000), (3, 44_000), (2, 250_000)];
+            sim = Sim::new(3, 8, 4, iss, 1_000_000).await;
+            const FIELDS: usize = 25;
+            for f in 0..FIELDS {
+                let ts = sim.tip().timestamp + 2 * HEARTBEAT + 1000;
+                let mut sp: Vec<_> = sim.spendable().into_iter().filter(|s| s.public_key == sim.keys[0].0 && s.slip_type == SlipType::Normal).collect();
+                sp.sort_by_key(|s| s.amount);
+                let mut txs = vec![];
+                if let Some(s) = sp.last() {
+                    if s.amount > 100_000 {
+                        txs.push(make_tx(&[s.clone()], &[(sim.keys[0].0, s.amount - 3_000)], &sim.keys[0].1, ts));
+                    }
+                }
+                let with_gt = !sim.tip().has_golden_ticket || txs.is_empty();
+                let gt = if with_gt {
+                    let parent = sim.tip().clone();
+                    Some(gt_tx_for(&sim.node, &parent, sim.keys[1].0, 300 + f as u64).await)
+                } else {
+                    None
+                };
+                let created = match create_block(&sim.node, sim.tip().hash, ts, &txs, gt.clone()).await {
+                    Ok(Ok(b)) => b,
+                    other => {
+                        summary.oracle_failure(case, &format!("Block::create failed on valid input: {:?}", other.map(|r| r.map(|b| b.id))), &desc);
+                        break;
+                    }
+                };
+                let mut e = created.clone();
+                let name_f = match f {
+                    0 => { e.treasury += 1; "treasury" }
+                    1 => { e.graveyard += 1; "graveyard" }
+                    2 => { e.previous_block_unpaid += 1; "previous_block_unpaid" }
+                    3 => { e.total_fees += 1; "total_fees" }
+                    4 => { e.total_fees_new += 1; "total_fees_new" }
+                    5 => { e.total_fees_atr += 1; "total_fees_atr" }
+                    6 => { e.total_fees_cumulative += 1; "total_fees_cumulative" }
+                    7 => { e.avg_total_fees += 1; "avg_total_fees" }
+                    8 => { e.avg_total_fees_new += 1; "avg_total_fees_new" }
+                    9 => { e.avg_total_fees_atr += 1; "avg_total_fees_atr" }
+                    10 => { e.total_payout_routing += 1; "total_payout_routing" }
+                    11 => { e.total_payout_mining += 1; "total_payout_mining" }
+                    12 => { e.total_payout_treasury += 1; "total_payout_treasury" }
+                    13 => { e.total_payout_graveyard += 1; "total_payout_graveyard" }
+                    14 => { e.total_payout_atr += 1; "total_payout_atr" }
+                    15 => { e.avg_payout_routing += 1; "avg_payout_routing" }
+                    16 => { e.avg_payout_mining += 1; "avg_payout_mining" }
+                    17 => { e.avg_payout_treasury += 1; "avg_payout_treasury" }
+                    18 => { e.avg_payout_graveyard += 1; "avg_payout_graveyard" }
+                    19 => { e.avg_payout_atr += 1; "avg_payout_atr" }
+                    20 => { e.avg_fee_per_byte += 1; "avg_fee_per_byte" }
+                    21 => { e.fee_per_byte += 1; "fee_per_byte" }
+                    22 => { e.avg_nolan_rebroadcast_per_block += 1; "avg_nolan_rebroadcast_per_block" }
+                    23 => { e.burnfee += 1; "burnfee" }
+                    _ => { e.difficulty += 1; "difficulty" }
+                };
+                resign(&mut e, &sim.keys[0].1);
+                let sr = sim.step(ts, gt.clone(), &txs, CreateOutcome::Ok, Some(created.clone()), Some(e)).await;
+                if sr.add != Some(AddClass::Invalid) {
+                    summary.oracle_failure(
+                        case,
+                        &format!("block {} with header field {} off by one is not rejected: {:?} {}", created.id, name_f, sr.add, sr.panic_msg.clone().unwrap_or_default()),
+                        &desc,
+                    );
+                    c02_oracle(&mut sim, &sr, case, summary, &desc, None);
+                    break;
+                }
+                // the honest block is still accepted afterwards
+                let sr2 = sim.step(ts, gt, &txs, CreateOutcome::NotCalled, None, Some(created)).await;
+                if !c02_oracle(&mut sim, &sr2, case, summary, &desc, None) || sr2.add != Some(AddClass::OnChain) {
+                    if sr2.add == Some(AddClass::Invalid) {
+                        summary.count("scripted", "header-tampered:honest-block-rejected-multiplier");
+                    }
+                    break;
+                }
+                summary.count("scripted", &format!("header-tampered:{}", name_f));
+            }
+        }
         _ => unreachable!(),
     }
     summary.count("scripted", name);
@@ -496,6 +576,7 @@ async fn main() {
         "zero-key-golden-ticket",
         "nft-rebroadcast",
         "collected-output-spent",
+        "header-tampered",
     ] {
         let case = cases.len();
         let r = verif_harness::chainsim::futures_catch(std::panic::AssertUnwindSafe(scripted(name, case, &mut summary))).await;
